@@ -1,42 +1,59 @@
 """C11 — correspondence + direct oracle for the MRP now-playing state manager.
 
 Real code driven (in-process, nothing of it replaced):
-  * real protobuf `ProtocolMessage`s built with pyatv.protocols.mrp.messages.create and
-    round-tripped through SerializeToString/FromString (what the connection would hand over),
+  * real protobuf `ProtocolMessage`s built with pyatv.protocols.mrp.messages.create, filled
+    generically from a field tree through the protobuf descriptors, and round-tripped through
+    SerializeToString/FromString (what the connection would hand over),
   * a real `MrpProtocol` (it *is* the `MessageDispatcher`) with a stub connection; messages
     enter through `MrpProtocol.message_received` exactly as `MrpConnection` delivers them,
   * the real `PlayerStateManager` (it registers its eight handlers with `listen_to`),
-  * the real `MrpMetadata.playing()` / `.app`, a counting listener on `psm.listener`,
+  * the real `MrpMetadata.playing()` / `.app`,
+  * the real `MrpPushUpdater` (started with `start()`, fed by every wake-up) with a recording
+    `PushListener` behind it,
   * `Playing.__init__/_post_process` for the clamping grid.
-Only fakes: the connection object, the listener, a frozen `datetime.datetime.now()` inside
-pyatv.protocols.mrp (the position computation reads the wall clock).
+Only fakes: the connection object, the listener proxy on `psm.listener` (it samples
+`metadata.playing()`/`.app` INSIDE `state_updated()` — the state as seen by a listener at the
+moment it is woken — and then forwards to the real `MrpPushUpdater.state_updated`), the push
+listener, a frozen `datetime.datetime.now()` inside pyatv.protocols.mrp.
 
-Message tuples (internal):  (kind, bundle, cname, player, payload…)  with identifier codes:
-bundle 0 = unset, k -> "com.app<k>"; cname None | k -> "Name<k>"; player 0 = unset,
-1 = DEFAULT_PLAYER_ID, k>=2 -> "p<k-2>"; title/item codes k -> "t<k>"/"i<k>" (0 = "").
+A message is `M(kind, spec)`: `spec` is the inner protobuf message as a tree
+{field name: value | sub-tree | [elements]} in which an absent key means "field not set"
+(proto2 presence).  Which fields exist is read from the protobuf descriptors (`Schema`); the
+generators vary the presence of every optional field independently of its value, and set
+fields the model does not know about as noise.  `M.n` is the property-level reading of the
+message (unset = proto2 default) used by the reference; `wire(M)` carries value AND presence to
+the Lean driver, where `WMsg.decode` (Model.lean) says what an unset field means.
 
-Three comparisons per step:
-  impl  vs  Lean model `run`  (correspondence: notified flag and every reported field),
+Comparisons per step:
+  impl  vs  Lean model `run`  (correspondence: woken?, the report SEEN AT THE WAKE-UP, and every
+                               reported field after the message),
   Lean `spec` vs Lean model   (sanity of the refinement theorem's two sides on the same input),
   impl  vs  `Ref` below       (direct oracle: a Python reference of the now-playing rules written
-                               from the property text; independent of the Lean files).
+                               from the property text; independent of the Lean files), plus
+  "the last state a listener observed when woken == the state reported after the message" and
+  "the last Playing the real MrpPushUpdater delivered == the Playing reported after the message".
 """
 import asyncio
 import hashlib
 import itertools
+import json
 
-RULE = ("message sequences over 2 clients x 3 players (default + 2; plus the unnamed player and an unset "
-        "client in sampled runs) x the 8 message kinds x a small payload set: exhaustive up to a tier-dependent "
-        "length modulo renaming of clients / non-default players, then sampled longer sequences from ctx.rng; "
-        "plus the full grid of Playing(position, total_time). non-trivial = the sequence changes the reported "
-        "view at least twice or removes a client/player that was being reported; distinct = the sequence itself")
+RULE = ("message sequences over 2 clients x 3 players (default + 2; plus unset/empty client and player "
+        "identifiers) x the 8 message kinds: (a) exhaustive over a small explicit-payload alphabet up to a "
+        "tier-dependent length modulo renaming, from the initial state and after four warm-up histories; "
+        "(b) exhaustive proto2-presence families enumerated from the protobuf descriptors (every optional field "
+        "the handlers read: unset vs default-valued vs other values, in one- and two-message combinations on the "
+        "reported player); (c) sampled longer sequences from ctx.rng with independent presence per field and "
+        "noise in fields the model ignores; plus the full grid of Playing(position, total_time). non-trivial = "
+        "the sequence changes the reported view at least twice or removes a client/player that was being "
+        "reported; distinct = the sequence itself")
 ASSUMPTIONS = [
     "wall clock frozen (datetime.datetime.now inside pyatv.protocols.mrp) so that position is a function of the messages",
     "float-valued metadata (playbackRate, duration, elapsedTime, elapsedTimeTimestamp) takes integer values; durations are >= 0 (negative durations are outside the property's domain, DESIGN §8)",
     "PlaybackQueue.location >= 0",
     "a listener is installed on the PlayerStateManager for the whole run",
 ]
-TRUSTED = ["stub connection + counting listener + frozen clock of harness/c11.py",
+TRUSTED = ["stub connection + sampling listener proxy + recording push listener + frozen clock of harness/c11.py",
            "protobuf (de)serialisation", "asyncio task scheduling of MessageDispatcher.dispatch"]
 
 NOW_UNIX = 1_700_000_000
@@ -44,51 +61,241 @@ COCOA_DELTA = 978307200
 NOW = NOW_UNIX - COCOA_DELTA
 
 KINDS = "SUCPNXRD"
+INNER_FIELD = {"S": "playerPath", "U": "playerPath", "P": "playerPath", "R": "playerPath", "D": "playerPath",
+               "C": "client", "N": "client", "X": "client"}
 
 
-# ----------------------------------------------------------------------------- encoding
-def bundle_str(k):
-    return None if k == 0 else "com.app%d" % k
-
-
-def player_str(k, default_id):
-    return None if k == 0 else (default_id if k == 1 else "p%d" % (k - 2))
+# ----------------------------------------------------------------------------- messages
+def _code(s, prefix):
+    if s is None:
+        return None
+    if s == "":
+        return 0
+    if s.startswith(prefix) and s[len(prefix):].isdigit():
+        return int(s[len(prefix):])
+    return "?" + s
 
 
 def _opt(x):
     return "_" if x is None else str(x)
 
 
-def item_wire(it):
-    ident, title, rate, dur, el, ts = it
-    return "~".join([str(ident), _opt(title), _opt(rate), _opt(dur), _opt(el), _opt(ts)])
+def _int(x):
+    return None if x is None else int(x)
 
 
-def cmds_wire(cmds, absent="_"):
-    if cmds is None:
-        return absent
+class M:
+    """One message: kind + inner-message field tree (absent key = field not set)."""
+    __slots__ = ("kind", "spec", "key", "n")
+    default_id = None          # set by Real()
+    cmd_defaults = (0, 0, 0)   # proto2 defaults of CommandInfo.command/shuffleMode/repeatMode (set by Real())
+
+    def __init__(self, kind, spec):
+        self.kind, self.spec = kind, spec
+        self.key = kind + json.dumps(spec, sort_keys=True, separators=(",", ":"))
+        self.n = self._normalise()
+
+    def __eq__(self, other):
+        return isinstance(other, M) and self.key == other.key
+
+    def __hash__(self):
+        return hash(self.key)
+
+    def __repr__(self):
+        return self.key
+
+    def json(self):
+        return [self.kind, self.spec]
+
+    # -- the parts the handlers look at --------------------------------------------------
+    def client(self):
+        if self.kind in "CNX":
+            return self.spec.get("client", {})
+        return self.spec.get("playerPath", {}).get("client", {})
+
+    def player(self):
+        return self.spec.get("playerPath", {}).get("player", {})
+
+    def _player_code(self):
+        ident = self.player().get("identifier")
+        if not ident:
+            return 0
+        return 1 if ident == M.default_id else _code(ident, "p") + 2
+
+    @staticmethod
+    def _item(it):
+        md = it.get("metadata", {})
+        title = md.get("title")
+        return (_code(it.get("identifier", ""), "i"), None if title is None else _code(title, "t"),
+                _int(md.get("playbackRate")), _int(md.get("duration")), _int(md.get("elapsedTime")),
+                _int(md.get("elapsedTimeTimestamp")))
+
+    @staticmethod
+    def _cmds(sc):
+        d = M.cmd_defaults
+        return tuple((c.get("command", d[0]), c.get("shuffleMode", d[1]), c.get("repeatMode", d[2]))
+                     for c in sc.get("supportedCommands", []))
+
+    def _normalise(self):
+        """Property-level reading (the old tuple form): unset fields read as their proto2 default,
+        an empty display name is no display name."""
+        c = self.client()
+        b = _code(c.get("bundleIdentifier", ""), "com.app")
+        name = _code(c.get("displayName") or None, "Name")
+        k = self.kind
+        if k in "CNX":
+            return (k, b, name)
+        p = self._player_code()
+        if k in "PR":
+            return (k, b, name, p)
+        if k == "S":
+            sp = self.spec
+            cmds = self._cmds(sp["supportedCommands"]) if "supportedCommands" in sp else None
+            q = None
+            if "playbackQueue" in sp:
+                pq = sp["playbackQueue"]
+                q = (pq.get("location", 0), tuple(self._item(i) for i in pq.get("contentItems", [])))
+            return (k, b, name, p, sp.get("playbackState"), cmds, q)
+        if k == "U":
+            return (k, b, name, p, tuple(self._item(i) for i in self.spec.get("contentItems", [])))
+        if k == "D":
+            return (k, b, name, p, self._cmds(self.spec.get("supportedCommands", {})))
+        raise ValueError(k)
+
+
+def _item_wire(it):
+    md = it.get("metadata", {})
+    ident = it.get("identifier")
+    title = md.get("title")
+    return "~".join([_opt(None if ident is None else _code(ident, "i")),
+                     _opt(None if title is None else _code(title, "t")),
+                     _opt(_int(md.get("playbackRate"))), _opt(_int(md.get("duration"))),
+                     _opt(_int(md.get("elapsedTime"))), _opt(_int(md.get("elapsedTimeTimestamp")))])
+
+
+def _cmds_wire(sc):
+    cmds = sc.get("supportedCommands", [])
     if not cmds:
         return "="
-    return ",".join("%d.%d.%d" % c for c in cmds)
+    return ",".join(".".join(_opt(c.get(f)) for f in ("command", "shuffleMode", "repeatMode")) for c in cmds)
 
 
-def wire(msg, default_id):
-    k = msg[0]
-    b, n = str(msg[1]), _opt(msg[2])
+def wire(m):
+    """Value and presence of every field the model knows, for the Lean driver."""
+    k, sp = m.kind, m.spec
+    c = m.client()
+    bi, dn = c.get("bundleIdentifier"), c.get("displayName")
+    b = _opt(None if bi is None else _code(bi, "com.app"))
+    n = _opt(None if dn is None else _code(dn, "Name"))
     if k in "CNX":
         return ":".join([k, b, n])
-    p = "_" if msg[3] == 0 else player_str(msg[3], default_id)
+    ident = m.player().get("identifier")
+    p = "_" if ident is None else ("=" if ident == "" else ident)
     if k in "PR":
         return ":".join([k, b, n, p])
     if k == "S":
-        _, _, _, _, ps, cmds, queue = msg
-        q = "_" if queue is None else ";".join([str(queue[0])] + [item_wire(i) for i in queue[1]])
-        return ":".join([k, b, n, p, _opt(ps), cmds_wire(cmds), q])
+        cmds = _cmds_wire(sp["supportedCommands"]) if "supportedCommands" in sp else "_"
+        q = "_"
+        if "playbackQueue" in sp:
+            pq = sp["playbackQueue"]
+            q = ";".join([_opt(pq.get("location"))] + ([_item_wire(i) for i in pq.get("contentItems", [])] or ["="]))
+        return ":".join([k, b, n, p, _opt(sp.get("playbackState")), cmds, q])
     if k == "U":
-        items = msg[4]
-        return ":".join([k, b, n, p, ";".join(item_wire(i) for i in items) if items else "="])
+        items = sp.get("contentItems", [])
+        return ":".join([k, b, n, p, ";".join(_item_wire(i) for i in items) if items else "="])
     if k == "D":
-        return ":".join([k, b, n, p, cmds_wire(msg[4], absent="=")])
+        return ":".join([k, b, n, p, _cmds_wire(sp.get("supportedCommands", {}))])
+    raise ValueError(k)
+
+
+# compact constructors: None = field not set, 0 = set to the empty string, k = a name
+def _client(b, n):
+    c = {}
+    if b is not None:
+        c["bundleIdentifier"] = "com.app%d" % b if b else ""
+    if n is not None:
+        c["displayName"] = "Name%d" % n if n else ""
+    return c
+
+
+def _path(b, n, p):
+    pp = {}
+    c = _client(b, n)
+    if c:
+        pp["client"] = c
+    if p is not None:
+        pp["player"] = {"identifier": "" if p == 0 else (M.default_id if p == 1 else "p%d" % (p - 2))}
+    return pp
+
+
+def _item_spec(ident=None, title=None, rate=None, dur=None, el=None, ts=None):
+    it, md = {}, {}
+    if ident is not None:
+        it["identifier"] = "i%d" % ident if ident else ""
+    if title is not None:
+        md["title"] = "t%d" % title if title else ""
+    for name, v in (("playbackRate", rate), ("duration", dur), ("elapsedTime", el), ("elapsedTimeTimestamp", ts)):
+        if v is not None:
+            md[name] = float(v)
+    if md:
+        it["metadata"] = md
+    return it
+
+
+def _cmd_spec(c=None, sh=None, rp=None):
+    return {k: v for k, v in (("command", c), ("shuffleMode", sh), ("repeatMode", rp)) if v is not None}
+
+
+def mk(kind, b, n=None, p=None, **kw):
+    """M from compact arguments; payload keywords: ps, cmds (list of cmd specs), queue (loc, [item specs])
+    or a ready `playbackQueue` tree, items (U), dcmds (D)."""
+    if kind in "CNX":
+        c = _client(b, n)
+        return M(kind, {"client": c} if c else {})
+    sp = {}
+    pp = _path(b, n, p)
+    if pp:
+        sp["playerPath"] = pp
+    if kind == "S":
+        if kw.get("ps") is not None:
+            sp["playbackState"] = kw["ps"]
+        if kw.get("cmds") is not None:
+            sp["supportedCommands"] = {"supportedCommands": list(kw["cmds"])} if kw["cmds"] else {}
+        if kw.get("queue") is not None:
+            loc, items = kw["queue"]
+            pq = {}
+            if loc is not None:
+                pq["location"] = loc
+            if items:
+                pq["contentItems"] = list(items)
+            sp["playbackQueue"] = pq
+    elif kind == "U":
+        if kw.get("items"):
+            sp["contentItems"] = list(kw["items"])
+    elif kind == "D":
+        sp["supportedCommands"] = {"supportedCommands": list(kw["dcmds"])} if kw.get("dcmds") else {}
+    return M(kind, sp)
+
+
+def from_tuple(t):
+    """The explicit-payload alphabet (old tuple form: 0 = unset identifier, every payload field set)."""
+    k = t[0]
+    b = t[1] or None
+    if k in "CNX":
+        return mk(k, b, t[2])
+    p = t[3] or None
+    if k in "PR":
+        return mk(k, b, t[2], p)
+    item = lambda it: _item_spec(it[0] or None, *it[1:])
+    cmd = lambda c: _cmd_spec(*c)
+    if k == "S":
+        _, _, _, _, ps, cmds, q = t
+        return mk(k, b, t[2], p, ps=ps, cmds=None if cmds is None else [cmd(c) for c in cmds],
+                  queue=None if q is None else (q[0], [item(i) for i in q[1]]))
+    if k == "U":
+        return mk(k, b, t[2], p, items=[item(i) for i in t[4]])
+    if k == "D":
+        return mk(k, b, t[2], p, dcmds=[cmd(c) for c in t[4]])
     raise ValueError(k)
 
 
@@ -99,20 +306,27 @@ class Real:
         import datetime as _dt
 
         import pyatv.protocols.mrp as mrp
-        from pyatv import interface
+        from pyatv import const, interface
+        from pyatv.core import MessageDispatcher, ProtocolStateDispatcher
         from pyatv.protocols.mrp import messages, player_state
         from pyatv.protocols.mrp import protobuf as pb
+        from pyatv.protocols.mrp.protobuf import CommandInfo_pb2
         from pyatv.protocols.mrp.protocol import MrpProtocol
 
         self.mrp, self.pb, self.messages, self.player_state = mrp, pb, messages, player_state
-        self.MrpProtocol, self.interface = MrpProtocol, interface
-        self.default_id = player_state.DEFAULT_PLAYER_ID
+        self.MrpProtocol, self.interface, self.const = MrpProtocol, interface, const
+        self.MessageDispatcher, self.ProtocolStateDispatcher = MessageDispatcher, ProtocolStateDispatcher
+        self.CommandInfo_pb2 = CommandInfo_pb2
+        self.default_id = M.default_id = player_state.DEFAULT_PLAYER_ID
         self.types = {
             "S": pb.SET_STATE_MESSAGE, "U": pb.UPDATE_CONTENT_ITEM_MESSAGE,
             "C": pb.SET_NOW_PLAYING_CLIENT_MESSAGE, "P": pb.SET_NOW_PLAYING_PLAYER_MESSAGE,
             "N": pb.UPDATE_CLIENT_MESSAGE, "X": pb.REMOVE_CLIENT_MESSAGE,
             "R": pb.REMOVE_PLAYER_MESSAGE, "D": pb.SET_DEFAULT_SUPPORTED_COMMANDS_MESSAGE,
         }
+        self.schema = Schema(self)
+        cd = CommandInfo_pb2.CommandInfo.DESCRIPTOR.fields_by_name
+        M.cmd_defaults = tuple(cd[f].default_value for f in ("command", "shuffleMode", "repeatMode"))
         self._bytes = {}
 
         frozen = _dt.datetime.fromtimestamp(NOW_UNIX)
@@ -139,71 +353,118 @@ class Real:
         if self._orig_dt is not None:
             self.mrp.datetime = self._orig_dt
 
-    # -- protobuf construction ---------------------------------------------------------
-    def _client(self, c, msg):
-        if msg[1]:
-            c.bundleIdentifier = bundle_str(msg[1])
-        if msg[2] is not None:
-            c.displayName = "Name%d" % msg[2]
-
-    def _path(self, inner, msg):
-        self._client(inner.playerPath.client, msg)
-        if msg[3]:
-            inner.playerPath.player.identifier = player_str(msg[3], self.default_id)
-
-    def _item(self, item, it):
-        ident, title, rate, dur, el, ts = it
-        if ident:
-            item.identifier = "i%d" % ident
-        md = item.metadata
-        if title is not None:
-            md.title = "t%d" % title if title else ""
-        if rate is not None:
-            md.playbackRate = float(rate)
-        if dur is not None:
-            md.duration = float(dur)
-        if el is not None:
-            md.elapsedTime = float(el)
-        if ts is not None:
-            md.elapsedTimeTimestamp = float(ts)
-
-    def _cmds(self, sc, cmds):
-        sc.SetInParent()
-        for (c, sh, rp) in cmds:
-            ci = sc.supportedCommands.add()
-            ci.command = c
-            ci.shuffleMode = sh
-            ci.repeatMode = rp
-
-    def build(self, msg):
-        """A fresh real ProtocolMessage for the tuple (parsed from its serialisation)."""
-        data = self._bytes.get(msg)
-        if data is None:
-            m = self.messages.create(self.types[msg[0]])
-            inner = m.inner()
-            k = msg[0]
-            if k in "CNX":
-                self._client(inner.client, msg)
+    # -- protobuf construction: generic, through the descriptors -------------------------
+    def _fill(self, msg, spec):
+        fields = msg.DESCRIPTOR.fields_by_name
+        for name, value in spec.items():
+            fd = fields[name]                      # KeyError = the schema moved: an observation upstream
+            repeated = fd.label == fd.LABEL_REPEATED
+            if fd.type == fd.TYPE_MESSAGE:
+                if repeated:
+                    for el in value:
+                        self._fill(getattr(msg, name).add(), el)
+                else:
+                    sub = getattr(msg, name)
+                    sub.SetInParent()
+                    self._fill(sub, value)
+            elif repeated:
+                getattr(msg, name).extend(value)
             else:
-                self._path(inner, msg)
-            if k == "S":
-                _, _, _, _, ps, cmds, queue = msg
-                if ps is not None:
-                    inner.playbackState = ps
-                if cmds is not None:
-                    self._cmds(inner.supportedCommands, cmds)
-                if queue is not None:
-                    inner.playbackQueue.SetInParent()
-                    inner.playbackQueue.location = queue[0]
-                    for it in queue[1]:
-                        self._item(inner.playbackQueue.contentItems.add(), it)
-            elif k == "U":
-                for it in msg[4]:
-                    self._item(inner.contentItems.add(), it)
-            elif k == "D":
-                self._cmds(inner.supportedCommands, msg[4])
-            data = self._bytes[msg] = m.SerializeToString()
+                setattr(msg, name, value.encode() if fd.type == fd.TYPE_BYTES else value)
+
+    def build(self, m):
+        """A fresh real ProtocolMessage for `m` (parsed from its serialisation)."""
+        data = self._bytes.get(m.key)
+        if data is None:
+            pm = self.messages.create(self.types[m.kind])
+            self._fill(pm.inner(), m.spec)
+            data = self._bytes[m.key] = pm.SerializeToString()
         return self.pb.ProtocolMessage.FromString(data)
+
+
+class Schema:
+    """Which fields exist, read from the protobuf descriptors of the eight message kinds and of
+    everything reachable from them.  MODELLED = the fields the handlers / build_playing_instance
+    read (and the Lean model carries, with presence); every other field of those messages is
+    NOISE: the generators set it at random and nothing reported may depend on it."""
+
+    MODELLED = {
+        "SetStateMessage": ("playbackState", "supportedCommands", "playbackQueue", "playerPath"),
+        "SetDefaultSupportedCommandsMessage": ("supportedCommands", "playerPath"),
+        "UpdateContentItemMessage": ("contentItems", "playerPath"),
+        "SetNowPlayingClientMessage": ("client",),
+        "SetNowPlayingPlayerMessage": ("playerPath",),
+        "UpdateClientMessage": ("client",),
+        "RemoveClientMessage": ("client",),
+        "RemovePlayerMessage": ("playerPath",),
+        "PlayerPath": ("client", "player"),
+        "NowPlayingClient": ("bundleIdentifier", "displayName"),
+        "NowPlayingPlayer": ("identifier",),
+        "SupportedCommands": ("supportedCommands",),
+        "CommandInfo": ("command", "shuffleMode", "repeatMode"),
+        "PlaybackQueue": ("location", "contentItems"),
+        "ContentItem": ("identifier", "metadata"),
+        "ContentItemMetadata": ("title", "playbackRate", "duration", "elapsedTime", "elapsedTimeTimestamp"),
+    }
+    # noise that would change something my view does report through another path
+    NOT_NOISE = {"ContentItemMetadata": ()}
+
+    def __init__(self, real):
+        self.desc = {}
+        for k, t in real.types.items():
+            self._walk(real.messages.create(t).inner().DESCRIPTOR)
+        for name, fields in self.MODELLED.items():
+            d = self.desc[name]                                   # KeyError: message type disappeared
+            for f in fields:
+                assert f in d.fields_by_name, (name, f)
+        self.inner_name = {k: real.messages.create(t).inner().DESCRIPTOR.name for k, t in real.types.items()}
+
+    def _walk(self, d):
+        if d.name in self.desc:
+            return
+        self.desc[d.name] = d
+        for f in d.fields:
+            if f.type == f.TYPE_MESSAGE and d.name in self.MODELLED and f.name in self.MODELLED[d.name]:
+                self._walk(f.message_type)
+
+    def optional_scalars(self, name):
+        """(field name, descriptor) of every modelled optional non-message field of message `name`."""
+        d = self.desc[name]
+        return [(f.name, f) for f in d.fields if f.name in self.MODELLED[name]
+                and f.type != f.TYPE_MESSAGE and f.label != f.LABEL_REPEATED]
+
+    def noise_fields(self, name):
+        d = self.desc[name]
+        return [f for f in d.fields if f.name not in self.MODELLED.get(name, ())]
+
+    def enum_values(self, name, field):
+        return [v.number for v in self.desc[name].fields_by_name[field].enum_type.values]
+
+    @staticmethod
+    def noise_value(f, rng):
+        if f.type == f.TYPE_MESSAGE:
+            v = {}
+        elif f.type == f.TYPE_ENUM:
+            v = rng.choice([x.number for x in f.enum_type.values])
+        elif f.type == f.TYPE_STRING:
+            v = rng.choice(["", "x", "noise"])
+        elif f.type == f.TYPE_BYTES:
+            v = "n"
+        elif f.type == f.TYPE_BOOL:
+            v = rng.choice([False, True])
+        elif f.type in (f.TYPE_FLOAT, f.TYPE_DOUBLE):
+            v = float(rng.choice([0, 1, 7]))
+        else:
+            v = rng.choice([0, 1, 3])
+        return [v] if f.label == f.LABEL_REPEATED else v
+
+    def add_noise(self, name, spec, rng, p=0.5):
+        """Set up to two fields of message `name` that the model does not know about."""
+        if rng.random() < p:
+            fields = self.noise_fields(name)
+            for f in rng.sample(fields, min(len(fields), rng.randint(1, 2))):
+                spec[f.name] = self.noise_value(f, rng)
+        return spec
 
 
 class _Conn:
@@ -217,11 +478,52 @@ class _Conn:
 
 
 class _Listener:
-    def __init__(self):
-        self.count = 0
+    """On `psm.listener`: forwards every wake-up to the real MrpPushUpdater.state_updated, which
+    reads `metadata.playing()` at that moment; `_SampledMetadata` records what it read (plus
+    `.app`) — the state as seen by a listener at the moment it is woken."""
+
+    def __init__(self, impl):
+        self.impl = impl
+        self.seen = []
 
     async def state_updated(self):
-        self.count += 1
+        n = len(self.impl.sampled.samples)
+        await self.impl.pu.state_updated()
+        got = self.impl.sampled.samples[n:]
+        self.seen.append(got[-1] if got else "err:listener-did-not-read-state")
+
+
+class _SampledMetadata:
+    """What the push updater holds as `metadata`: the real MrpMetadata, with every `playing()`
+    result recorded together with `.app` at that moment."""
+
+    def __init__(self, md):
+        self._md = md
+        self.samples = []
+
+    async def playing(self):
+        try:
+            p = await self._md.playing()
+            self.samples.append(view_of(p, self._md.app))
+        except Exception as exc:
+            self.samples.append(_errname(exc))
+            raise
+        return p
+
+    def __getattr__(self, name):
+        return getattr(self._md, name)
+
+
+class _PushListener:
+    def __init__(self):
+        self.last = None
+        self.errors = 0
+
+    def playstatus_update(self, updater, playstatus):
+        self.last = playstatus
+
+    def playstatus_error(self, updater, exception):
+        self.errors += 1
 
 
 def _errname(exc):
@@ -229,15 +531,20 @@ def _errname(exc):
 
 
 class Impl:
-    """One real PlayerStateManager + MrpMetadata behind one real MrpProtocol dispatcher."""
+    """One real PlayerStateManager + MrpMetadata + MrpPushUpdater behind one real MrpProtocol
+    dispatcher.  Must be created inside a running event loop."""
 
     def __init__(self, real):
         self.real = real
         self.prot = real.MrpProtocol(_Conn(), None, None, None)
         self.psm = real.player_state.PlayerStateManager(self.prot)
-        self.listener = _Listener()
-        self.psm.listener = self.listener
         self.md = real.mrp.MrpMetadata(self.prot, self.psm, "verif", None)
+        sd = real.ProtocolStateDispatcher(real.const.Protocol.MRP, real.MessageDispatcher())
+        self.sampled = _SampledMetadata(self.md)
+        self.pu = real.mrp.MrpPushUpdater(self.sampled, self.psm, sd)
+        self.push = _PushListener()
+        self.pu.listener = self.push
+        self.listener = _Listener(self)
         self.pending = []
         orig = self.prot.dispatch
 
@@ -248,15 +555,39 @@ class Impl:
 
         self.prot.dispatch = dispatch
 
+    async def start(self):
+        """Real start(): the push updater registers itself and publishes the initial state; then
+        the sampling proxy takes its place on psm.listener (and forwards every wake-up to it)."""
+        self.pu.start()
+        await asyncio.sleep(0)
+        await asyncio.sleep(0)
+        self.psm.listener = self.listener
+        return await self.observe([])
+
+    async def observe(self, wakes):
+        await asyncio.sleep(0)              # loop.call_soon(listener.playstatus_update, …)
+        try:
+            now = await self.md.playing()
+            view = view_of(now, self.md.app)
+        except Exception as exc:            # observation, not a crash
+            return (wakes, _errname(exc), None)
+        stale = None
+        if self.push.last is None:
+            stale = "nothing"
+        elif not self.push.last == now:
+            stale = list(view_of(self.push.last, None))
+        return (wakes, view, stale)
+
     async def feed(self, msg):
-        """Deliver one message; returns (listener calls, view) or an error observation."""
-        before = self.listener.count
+        """Deliver one message; returns (views seen at wake-ups, view afterwards, what the push
+        updater last delivered if it differs from the current Playing else None)."""
+        self.listener.seen = []
         m = self.real.build(msg)
         self.prot.message_received(m, None)
         pending, self.pending = self.pending, []
         for t in pending:
             await t
-        return (self.listener.count - before, await self.view())
+        return await self.observe(self.listener.seen)
 
     async def view(self):
         try:
@@ -265,16 +596,6 @@ class Impl:
         except Exception as exc:  # observation, not a crash
             return _errname(exc)
         return view_of(p, app)
-
-
-def _code(s, prefix):
-    if s is None:
-        return None
-    if s == "":
-        return 0
-    if s.startswith(prefix) and s[len(prefix):].isdigit():
-        return int(s[len(prefix):])
-    return "?" + s
 
 
 def view_of(p, app):
@@ -334,7 +655,8 @@ class Ref:
         c = self.clients[self.active]
         return (self.active, c["chosen"] if c["chosen"] is not None else 1)
 
-    def step(self, msg):
+    def step(self, m):
+        msg = m.n
         k, b, name = msg[0], msg[1], msg[2]
         if k == "X":
             if b in self.clients:
@@ -480,7 +802,7 @@ def alphabet(real, clients, players, rich, names=(None,), reduced=False):
                     out.append(("S", b, n, p, ps, cmds, q))
                 for u in update:
                     out.append(("U", b, n, p, u))
-    return out
+    return [from_tuple(t) for t in out]
 
 
 def prefixes(real):
@@ -488,7 +810,7 @@ def prefixes(real):
     PS = real.pb.PlaybackState
     it1 = (1, 1, 1, 100, 10, NOW - 10)
     it2 = (2, 3, 0, 50, 70, NOW - 30)
-    return [
+    pre = [
         (("C", 1, None), ("S", 1, None, 1, PS.Playing, None, (0, (it1,)))),
         (("C", 1, 5), ("P", 1, None, 2), ("S", 1, None, 2, PS.Playing, None, (0, (it1,))),
          ("S", 1, None, 1, PS.Paused, None, (0, (it2,)))),
@@ -496,19 +818,20 @@ def prefixes(real):
         (("C", 1, None), ("P", 1, None, 3), ("S", 1, None, 3, PS.Seeking, None, (1, (it2, it1))), ("P", 2, None, 3),
          ("S", 2, None, 3, PS.Playing, None, None)),
     ]
+    return [tuple(from_tuple(t) for t in seq) for seq in pre]
 
 
 def canonical(seq):
     """Representative modulo renaming clients 1<->2 and non-default players 2<->3: first
     mentioned client is 1, first mentioned non-default player is 2."""
     for m in seq:
-        if m[1] in (1, 2):
-            if m[1] != 1:
+        if m.n[1] in (1, 2):
+            if m.n[1] != 1:
                 return False
             break
     for m in seq:
-        if m[0] not in "CNX" and m[3] in (2, 3):
-            return m[3] == 2
+        if m.kind not in "CNX" and m.n[3] in (2, 3):
+            return m.n[3] == 2
     return True
 
 
@@ -519,26 +842,232 @@ def sequences_exhaustive(alpha, maxlen):
                 yield t
 
 
-def sample_sequences(rng, alpha, count, lo, hi):
+# -- proto2 presence, enumerated from the descriptors ------------------------------------------
+UNSET = None
+
+
+def field_domains(real):
+    """Values (besides "not set") for every modelled optional scalar field, keyed by
+    (message name, field name).  Enum domains are read from the descriptors."""
+    sch, C = real.schema, real.CommandInfo_pb2
+    return {
+        ("SetStateMessage", "playbackState"): sch.enum_values("SetStateMessage", "playbackState"),
+        ("PlaybackQueue", "location"): [0, 1, 2],
+        ("ContentItem", "identifier"): ["", "i1", "i2"],
+        ("ContentItemMetadata", "title"): ["", "t1", "t2"],
+        ("ContentItemMetadata", "playbackRate"): [0.0, 1.0, 2.0],
+        ("ContentItemMetadata", "duration"): [0.0, 20.0, 100.0],
+        ("ContentItemMetadata", "elapsedTime"): [0.0, 10.0, 70.0, -5.0],
+        ("ContentItemMetadata", "elapsedTimeTimestamp"): [0.0, float(NOW - 10), float(NOW - 100), float(NOW + 20)],
+        ("CommandInfo", "command"): [C.ChangeShuffleMode, C.ChangeRepeatMode, C.Play],
+        ("CommandInfo", "shuffleMode"): sch.enum_values("CommandInfo", "shuffleMode"),
+        ("CommandInfo", "repeatMode"): sch.enum_values("CommandInfo", "repeatMode"),
+        ("NowPlayingClient", "bundleIdentifier"): ["", "com.app1", "com.app2"],
+        ("NowPlayingClient", "displayName"): ["", "Name5", "Name6"],
+        ("NowPlayingPlayer", "identifier"): ["", real.default_id, "p0", "p1"],
+    }
+
+
+def presence_product(real, name, domains, limit=None):
+    """Every combination of {not set} ∪ domain over the modelled optional scalar fields of message
+    `name` (the field list comes from the descriptor; a modelled scalar without a domain is an error)."""
+    fields = real.schema.optional_scalars(name)
+    choices = []
+    for fname, _fd in fields:
+        dom = domains[(name, fname)]
+        choices.append([UNSET] + list(dom if limit is None else dom[:limit]))
+    for combo in itertools.product(*choices):
+        yield {f[0]: v for f, v in zip(fields, combo) if v is not UNSET}
+
+
+def presence_families(real):
+    """Exhaustive one- and two-message combinations on the reported player (client 1 active, its
+    default player), varying presence x value of every optional field the handlers read."""
+    dom = field_domains(real)
+    PS = real.pb.PlaybackState
+    act = mk("C", 1)
+    P = dict(b=1, p=1)
+
+    def S(**sp):
+        return M("S", dict({"playerPath": _path(1, None, 1)}, **sp))
+
+    a = _item_spec(1, 1, 1, 100, 10, NOW - 10)
+    bb = _item_spec(2, 2, 0, 50, 70, NOW - 30)
+    fam = {}
+    # F1: playbackState x playbackQueue{unset | location{unset,0,1,2} x items{0,1,2}} — all ordered pairs
+    variants = []
+    for ps in (UNSET, PS.Playing, PS.Paused):
+        base = {} if ps is UNSET else {"playbackState": ps}
+        variants.append(S(**base))
+        for q in presence_product(real, "PlaybackQueue", dom):
+            for items in ([], [a], [a, bb]):
+                pq = dict(q)
+                if items:
+                    pq["contentItems"] = items
+                variants.append(S(playbackQueue=pq, **base))
+    fam["presence-queue-pairs"] = [(act, v1, v2) for v1 in variants for v2 in variants]
+    # F2: every presence/value combination of ContentItem + ContentItemMetadata scalars
+    items = []
+    for it in presence_product(real, "ContentItem", dom, limit=2):
+        for md in presence_product(real, "ContentItemMetadata", dom, limit=2):
+            spec = dict(it)
+            if md:
+                spec["metadata"] = md
+            items.append(spec)
+    full = S(playbackState=PS.Playing, playbackQueue={"contentItems": [a]})
+    upd_full = M("U", {"playerPath": _path(1, None, 1), "contentItems": [_item_spec(1, 2, 2, 20, 5, NOW - 100)]})
+    f2 = []
+    for it in items:
+        s_it = S(playbackState=PS.Playing, playbackQueue={"contentItems": [it]})
+        f2.append((act, s_it))
+        f2.append((act, s_it, upd_full))
+        if it.get("identifier") == "i1":
+            f2.append((act, full, M("U", {"playerPath": _path(1, None, 1), "contentItems": [it]})))
+    fam["presence-item-fields"] = f2
+    # F3: CommandInfo fields, as the player's own commands against the client's defaults
+    cmds = list(presence_product(real, "CommandInfo", dom, limit=3))
+    f3 = []
+    defaults = [c for c in cmds if c.get("command") in (real.CommandInfo_pb2.ChangeShuffleMode, real.CommandInfo_pb2.ChangeRepeatMode)][::3] + [{}]
+    for d in defaults:
+        dm = M("D", {"playerPath": _path(1, None, None), "supportedCommands": {"supportedCommands": [d]}})
+        for c in cmds:
+            f3.append((act, dm, S(supportedCommands={"supportedCommands": [c]})))
+            f3.append((act, S(supportedCommands={"supportedCommands": [c, d]})))
+    fam["presence-command-fields"] = f3
+    # F4: client / player identification fields of every kind, after a set-now-playing-client variant
+    clients = [{}] + [{"client": c} for c in presence_product(real, "NowPlayingClient", dom, limit=2)] + [{"client": {}}]
+    players = [{}] + [{"player": p} for p in presence_product(real, "NowPlayingPlayer", dom, limit=3)]
+    f4 = []
+    seconds = []
+    for c in clients:
+        seconds += [M("N", dict(c)), M("X", dict(c))]
+        for pl in players:
+            pp = dict(c.items())
+            pp.update(pl)
+            path = {"playerPath": pp} if pp else {}
+            seconds += [M("S", dict(path, playbackState=PS.Stopped)), M("P", dict(path)), M("R", dict(path))]
+    for c in clients:
+        for m2 in seconds:
+            f4.append((M("C", dict(c)), m2))
+    fam["presence-path-fields"] = f4
+    return fam
+
+
+def rand_items(real, rng, dom):
+    out = []
+    for _ in range(rng.choice([0, 1, 1, 2, 3])):
+        it = {}
+        if rng.chance(0.8):
+            it["identifier"] = rng.choice(dom[("ContentItem", "identifier")])
+        if rng.chance(0.85):
+            md = {}
+            for fname, _fd in real.schema.optional_scalars("ContentItemMetadata"):
+                if rng.chance(0.6):
+                    md[fname] = rng.choice(dom[("ContentItemMetadata", fname)])
+            real.schema.add_noise("ContentItemMetadata", md, rng, p=0.2)
+            it["metadata"] = md
+        real.schema.add_noise("ContentItem", it, rng, p=0.1)
+        out.append(it)
+    return out
+
+
+def rand_cmds(real, rng, dom):
+    out = []
+    for _ in range(rng.choice([0, 1, 1, 2])):
+        c = {}
+        for fname, _fd in real.schema.optional_scalars("CommandInfo"):
+            if rng.chance(0.7):
+                c[fname] = rng.choice(dom[("CommandInfo", fname)])
+        real.schema.add_noise("CommandInfo", c, rng, p=0.1)
+        out.append(c)
+    return {"supportedCommands": out} if out else {}
+
+
+def rand_msg(real, rng, dom, b, p, kind=None):
+    """A random message of a random kind for client code b / player code p (0 = unnamed: unset or ""),
+    every optional field independently present or not, plus noise in fields the model ignores."""
+    sch = real.schema
+    k = kind or rng.choice("SSSSUUCPNXRD")
+    c = {}
+    if b:
+        c["bundleIdentifier"] = "com.app%d" % b
+    elif rng.chance(0.5):
+        c["bundleIdentifier"] = ""
+    if rng.chance(0.3):
+        c["displayName"] = rng.choice(dom[("NowPlayingClient", "displayName")])
+    sch.add_noise("NowPlayingClient", c, rng, p=0.1)
+    sp = {}
+    if k in "CNX":
+        if c or rng.chance(0.5):
+            sp["client"] = c
+    else:
+        pp = {}
+        if c or rng.chance(0.5):
+            pp["client"] = c
+        pl = {}
+        if p:
+            pl["identifier"] = real.default_id if p == 1 else "p%d" % (p - 2)
+        elif rng.chance(0.5):
+            pl["identifier"] = ""
+        sch.add_noise("NowPlayingPlayer", pl, rng, p=0.1)
+        if pl or rng.chance(0.3):
+            pp["player"] = pl
+        sch.add_noise("PlayerPath", pp, rng, p=0.05)
+        if pp or rng.chance(0.5):
+            sp["playerPath"] = pp
+        if k == "S":
+            if rng.chance(0.6):
+                sp["playbackState"] = rng.choice(dom[("SetStateMessage", "playbackState")])
+            if rng.chance(0.35):
+                sp["supportedCommands"] = rand_cmds(real, rng, dom)
+            if rng.chance(0.6):
+                pq = {}
+                if rng.chance(0.5):
+                    pq["location"] = rng.choice(dom[("PlaybackQueue", "location")])
+                items = rand_items(real, rng, dom)
+                if items:
+                    pq["contentItems"] = items
+                sch.add_noise("PlaybackQueue", pq, rng, p=0.1)
+                sp["playbackQueue"] = pq
+        elif k == "U":
+            items = rand_items(real, rng, dom)
+            if items:
+                sp["contentItems"] = items
+        elif k == "D":
+            sp["supportedCommands"] = rand_cmds(real, rng, dom)
+    sch.add_noise(sch.inner_name[k], sp, rng, p=0.15)
+    return M(k, sp)
+
+
+def sample_sequences(real, rng, alpha, count, lo, hi):
     """Focused random histories: a focus client (activated early, most of the time) receives most
-    of the traffic, and within it a focus player; the rest is noise about other clients/players."""
+    of the traffic, and within it a focus player; the rest is noise about other clients/players.
+    Half of the messages come from the explicit-payload alphabet, half are built field by field
+    from the descriptors with independent presence."""
+    dom = field_domains(real)
     by_client = {}
     for m in alpha:
-        by_client.setdefault(m[1], []).append(m)
+        by_client.setdefault(m.n[1], []).append(m)
     clients = sorted(by_client)
     for _ in range(count):
         n = rng.randint(lo, hi)
         focus = rng.choice(clients)
         mine = by_client[focus]
         fplayer = rng.choice([1, 1, 2, 3, 0])
-        mine_p = [m for m in mine if m[0] in "CNXD" or m[3] == fplayer]
-        activate = [m for m in mine if m[0] == "C"]
+        mine_p = [m for m in mine if m.kind in "CNXD" or m.n[3] == fplayer]
+        activate = [m for m in mine if m.kind == "C"]
         p_noise = rng.choice([0.1, 0.3, 0.6])
+        p_desc = rng.choice([0.2, 0.5, 0.9])
         seq = []
         for i in range(n):
             r = rng.random()
             if i == 0 and rng.chance(0.8):
                 seq.append(rng.choice(activate))
+            elif rng.random() < p_desc:
+                if r < p_noise:
+                    seq.append(rand_msg(real, rng, dom, rng.choice(clients), rng.choice([0, 1, 2, 3])))
+                else:
+                    seq.append(rand_msg(real, rng, dom, focus, fplayer if r < 0.8 else rng.choice([0, 1, 2, 3])))
             elif r < p_noise:
                 seq.append(rng.choice(alpha))
             elif r < p_noise + (1 - p_noise) * 0.6:
@@ -554,14 +1083,14 @@ async def _run_impl(real, seqs):
     for seq in seqs:
         try:
             impl = Impl(real)
-            steps = [(0, await impl.view())]
+            steps = [await impl.start()]
             for msg in seq:
                 try:
                     steps.append(await impl.feed(msg))
                 except Exception as exc:
-                    steps.append((0, _errname(exc)))
+                    steps.append(([], _errname(exc), None))
         except Exception as exc:
-            steps = [(0, _errname(exc))] * (len(seq) + 1)
+            steps = [([], _errname(exc), None)] * (len(seq) + 1)
         out.append(steps)
     return out
 
@@ -576,25 +1105,33 @@ def run_impl(real, seqs):
         loop.close()
 
 
+def _case(seq, step=None):
+    c = {"seq": [m.json() for m in seq]}
+    if step is not None:
+        c["step"] = step
+    return c
 
 
 def oracle(ctx, real, seq, steps):
     """The property evaluated on the real code's observations, against the reference."""
     ref = Ref(real)
-    prev_impl = steps[0][1]
+    _w, prev_impl, stale = steps[0]
     if prev_impl != ref.report():
         ctx.fail("initial-not-idle", {"seq": []}, _jsonable(prev_impl), list(ref.report()), "before any message the report is not idle")
         return 0, False
     changes = 0
     removed_serving = False
-    for i, (msg, (notified, view)) in enumerate(zip(seq, steps[1:])):
+    seen = prev_impl            # what a listener knows: the last state it observed when it was woken
+    for i, (m, (wakes, view, stale)) in enumerate(zip(seq, steps[1:])):
+        msg = m.n
         serving_before = ref.serving()
-        ref.step(msg)
+        ref.step(m)
         want = ref.report()
-        k = msg[0]
-        case = {"seq": [list(map(_jsonable, m)) for m in seq], "step": i}
-        if isinstance(view, str):
-            ctx.fail(f"exception:{k}:{view}", case, view, list(want), "the real code raised while reporting the now-playing state")
+        k = m.kind
+        case = _case(seq, i)
+        if isinstance(view, str) or any(isinstance(w, str) for w in wakes):
+            bad = view if isinstance(view, str) else next(w for w in wakes if isinstance(w, str))
+            ctx.fail(f"exception:{k}:{bad}", case, bad, list(want), "the real code raised while reporting the now-playing state")
             return changes, removed_serving
         about = (msg[1], msg[3]) if k in "SUR" else None
         if k == "X" and serving_before and serving_before[0] == msg[1]:
@@ -615,9 +1152,22 @@ def oracle(ctx, real, seq, steps):
                          "reported state is not derived from the most recent state of the active player of the active client")
         if view != prev_impl:
             changes += 1
-            if not notified:
-                ctx.fail(f"no-wake:{k}", case, {"before": list(prev_impl), "after": list(view), "listener_calls": notified},
+        # woken whenever the reported state can change — observed where a listener observes: at the wake-up
+        if wakes:
+            seen = wakes[-1]
+        if seen != view:
+            if not wakes:
+                ctx.fail(f"no-wake:{k}", case, {"listener_last_saw": list(seen), "reported_now": list(view), "wakeups": 0},
                          "listener.state_updated() called", "the reported state changed but the listener was not woken")
+            else:
+                ctx.fail(f"stale-wake:{k}", case, {"seen_at_wakeup": list(wakes[-1]), "reported_now": list(view), "wakeups": len(wakes)},
+                         "the state a listener reads when woken is the state reported after the message",
+                         "the listener was woken before the state change was complete: it saw a stale state and is not woken again")
+            seen = view     # report each stale observation once
+        if stale is not None:
+            ctx.fail(f"push-stale:{k}", case, {"push_updater_last_delivered": stale, "reported_now": list(view)},
+                     "the Playing last delivered by MrpPushUpdater equals metadata.playing()",
+                     "the real MrpPushUpdater's consumer is left with an outdated now-playing state")
         pos, total = view[4], view[3]
         if pos is not None and (pos < 0 or (total is not None and total > 0 and pos > total)):
             ctx.fail("position-out-of-range", case, {"position": pos, "total": total}, "0 <= position <= total", "reported position outside [0, total]")
@@ -635,48 +1185,48 @@ def _jsonable(x):
     return x
 
 
-def _tuplify(x):
-    if isinstance(x, list):
-        return tuple(_tuplify(y) for y in x)
-    return x
-
-
 def check_batch(ctx, real, seqs, label):
-    """Run a batch on the real code, the Lean model and the Lean spec; diff; oracle."""
+    """Run a batch on the real code, the Lean model and (every 4th sequence; the refinement
+    theorem covers the rest) the Lean spec; diff; oracle.  `label` is one label or one per sequence."""
     seqs = list(seqs)
     if not seqs:
         return
+    labels = [label] * len(seqs) if isinstance(label, str) else list(label)
     impl = run_impl(real, seqs)
-    lines = []
-    for seq in seqs:
-        ws = " ".join(wire(m, real.default_id) for m in seq)
+    lines, at = [], []
+    for i, seq in enumerate(seqs):
+        ws = " ".join(wire(m) for m in seq)
+        at.append(len(lines))
         lines.append(f"run 1 {NOW} {ws}")
-        lines.append(f"spec {NOW} {ws}")
+        if i % 4 == 0:
+            lines.append(f"spec {NOW} {ws}")
     answers = ctx.lean(lines)
-    for idx, (seq, steps) in enumerate(zip(seqs, impl)):
-        model = answers[2 * idx].split(",")
-        spec = answers[2 * idx + 1].split(",")
-        kinds = "".join(m[0] for m in seq)
+    for idx, (seq, steps, label) in enumerate(zip(seqs, impl, labels)):
+        mline = answers[at[idx]]
+        model = mline.split(",")
+        spec = answers[at[idx] + 1].split(",") if idx % 4 == 0 else [None] * len(seq)
+        kinds = "".join(m.kind for m in seq)
         ctx.note("len:%d" % len(seq))
         ctx.note("set:" + label)
         for m in seq:
-            ctx.note("kind:" + m[0])
-        case = {"seq": [_jsonable(m) for m in seq]}
-        if len(model) != len(seq) or len(spec) != len(seq) or answers[2 * idx] == "bad-op":
-            ctx.disagree(case, "n/a", answers[2 * idx], where="driver answer shape")
+            ctx.note("kind:" + m.kind)
+        case = _case(seq)
+        if len(model) != len(seq) or len(spec) != len(seq) or mline == "bad-op":
+            ctx.disagree(case, "n/a", mline, where="driver answer shape")
             continue
-        for i, ((notified, view), mtxt, stxt) in enumerate(zip(steps[1:], model, spec)):
-            mn, mrep = mtxt.split("/", 1)
+        for i, ((wakes, view, _stale), mtxt, stxt) in enumerate(zip(steps[1:], model, spec)):
+            mn, mseen, mrep = mtxt.split("|")
             mview = parse_report(mrep)
-            if isinstance(view, str) or mview != view or int(mn) != (1 if notified else 0) or notified > 1:
-                ctx.disagree(dict(case, step=i), [notified, _jsonable(view)], mtxt, where="model vs real PlayerStateManager/MrpMetadata")
+            mwake = [] if mseen == "-" else [parse_report(mseen)]
+            if isinstance(view, str) or mview != view or mwake != wakes:
+                ctx.disagree(dict(case, step=i), [_jsonable(wakes), _jsonable(view)], mtxt,
+                             where="model vs real PlayerStateManager/MrpMetadata (woken?, state seen at the wake-up, state after)")
                 break
-            if parse_report(stxt) != mview:
+            if stxt is not None and parse_report(stxt) != mview:
                 ctx.disagree(dict(case, step=i), stxt, mtxt, where="Lean spec vs Lean model (refinement sides)")
                 break
-            if not isinstance(view, str):
-                ctx.note("state:%d" % view[0])
-                ctx.note("notified:%d" % (1 if notified else 0))
+            ctx.note("state:%d" % view[0])
+            ctx.note("notified:%d" % len(wakes))
         ctx.validated()
         changes, removed = oracle(ctx, real, seq, steps)
         ctx.case([label, case["seq"]], changes >= 2 or removed, sample={"kinds": kinds, "seq": case["seq"]} if removed and changes >= 2 else None)
@@ -704,7 +1254,16 @@ def clamp_grid(ctx, real):
                      "Playing reports a position outside [0, total_time]")
 
 
-D8 = (("C", 1, None), ("S", 1, None, 1, 3, None, None), ("R", 1, None, 1))
+def witnesses():
+    """D8 (DESIGN §6) and its siblings: always replayed first."""
+    seqs = [
+        (("C", 1, None), ("S", 1, None, 1, 3, None, None), ("R", 1, None, 1)),
+        (("C", 1, None), ("S", 1, None, 2, 3, None, None), ("P", 1, None, 2), ("R", 1, None, 2)),
+        (("C", 1, None), ("S", 1, None, 1, 3, None, None), ("X", 1, None)),
+        (("C", 1, 5), ("N", 1, 6), ("N", 2, 6)),
+        (("S", 1, None, 1, 3, None, None), ("C", 1, None), ("P", 1, None, 0), ("R", 1, None, 0), ("R", 1, None, 1)),
+    ]
+    return [tuple(from_tuple(t) for t in seq) for seq in seqs]
 
 
 def run(ctx, only=None):
@@ -713,59 +1272,65 @@ def run(ctx, only=None):
         check_batch(ctx, real, only, "replay")
         return
     clamp_grid(ctx, real)
-    # the D8 witness (DESIGN §6) and its siblings are always replayed first
-    siblings = [
-        D8,
-        (("C", 1, None), ("S", 1, None, 2, 3, None, None), ("P", 1, None, 2), ("R", 1, None, 2)),
-        (("C", 1, None), ("S", 1, None, 1, 3, None, None), ("X", 1, None)),
-        (("C", 1, 5), ("N", 1, 6), ("N", 2, 6)),
-        (("S", 1, None, 1, 3, None, None), ("C", 1, None), ("P", 1, None, 0), ("R", 1, None, 0), ("R", 1, None, 1)),
-    ]
-    check_batch(ctx, real, siblings, "witness")
+    check_batch(ctx, real, witnesses(), "witness")
 
     full = alphabet(real, (1, 2), (1, 2, 3), rich=False)                    # 50 messages
     reduced = alphabet(real, (1, 2), (1, 2), rich=False, reduced=True)      # 28 messages
+    fullset = set(full)
 
-    def exhaustive(seqs, label):
-        batch = []
-        for seq in seqs:
-            batch.append(seq)
-            if len(batch) >= 20000:
-                check_batch(ctx, real, batch, label)
-                batch = []
-        check_batch(ctx, real, batch, label)
+    def stream():
+        # proto2 presence x value of every optional field the handlers read, from the descriptors
+        for label, seqs in presence_families(real).items():
+            for q in seqs:
+                yield label, q
+        # from the initial state, modulo renaming of clients / non-default players
+        for q in sequences_exhaustive(full, ctx.scale(2, 3)):
+            yield "exhaustive-full", q
+        for q in sequences_exhaustive(reduced, ctx.scale(3, 4)):
+            if len(q) > ctx.scale(2, 3) or any(m not in fullset for m in q):
+                yield "exhaustive-reduced", q
+        # every suffix after histories that leave something being reported
+        for pi, pre in enumerate(prefixes(real)):
+            for m in full:
+                yield "after-prefix%d-full" % pi, pre + (m,)
+            for t in itertools.product(full if ctx.thorough else reduced, repeat=2):
+                yield "after-prefix%d-%s" % (pi, "full" if ctx.thorough else "reduced"), pre + t
+            if ctx.thorough and pi < 2:
+                for t in itertools.product(reduced, repeat=3):
+                    yield "after-prefix%d-reduced" % pi, pre + t
 
-    # from the initial state, modulo renaming of clients / non-default players
-    exhaustive(sequences_exhaustive(full, ctx.scale(2, 3)), "exhaustive-full")
-    exhaustive((s for s in sequences_exhaustive(reduced, ctx.scale(3, 4)) if len(s) > ctx.scale(2, 3)
-                or any(m not in full for m in s)), "exhaustive-reduced")
-    # every suffix after histories that leave something being reported
-    for pi, pre in enumerate(prefixes(real)):
-        exhaustive((pre + t for n in range(1, ctx.scale(2, 2) + 1) for t in itertools.product(full, repeat=n)),
-                   "after-prefix%d-full" % pi)
-        if ctx.thorough:
-            exhaustive((pre + t for t in itertools.product(reduced, repeat=3)), "after-prefix%d-reduced" % pi)
+    batch = []
+    for item in stream():
+        batch.append(item)
+        if len(batch) >= 25000:
+            check_batch(ctx, real, [q for _l, q in batch], [l for l, _q in batch])
+            batch = []
+    check_batch(ctx, real, [q for _l, q in batch], [l for l, _q in batch])
     ctx.exhaustive = True
 
     rich = alphabet(real, (0, 1, 2), (0, 1, 2, 3), rich=True, names=(None, 5))
     rng = ctx.rng.fork("sampled")
-    n = ctx.scale(5000, 60000)
-    check_batch(ctx, real, sample_sequences(rng, rich, n, 3, ctx.scale(10, 14)), "sampled")
+    n = ctx.scale(3000, 30000)
+    check_batch(ctx, real, sample_sequences(real, rng, rich, n, 3, ctx.scale(10, 14)), "sampled")
+
+
+def _seq_of(case):
+    return tuple(M(k, spec) for k, spec in case["seq"])
 
 
 def replay(ctx, failure):
     case = failure["case"]
     c2 = type(ctx)(ctx.prop, ctx.tier, ctx.seed, ctx.driver.driver_rel)
     if "seq" in case:
-        run(c2, only=[tuple(_tuplify(m) for m in case["seq"])])
+        Real()                       # sets M.default_id / defaults before messages are rebuilt
+        run(c2, only=[_seq_of(case)])
     else:
         clamp_grid(c2, Real())
     return bool(c2.failures)
 
 
-def _fails_with(ctx, seq, sig):
+def _fails_with(ctx, real, seq, sig):
     c2 = type(ctx)(ctx.prop, ctx.tier, ctx.seed, ctx.driver.driver_rel)
-    real = Real()
     steps = run_impl(real, [seq])[0]
     oracle(c2, real, seq, steps)
     return next((f for f in c2.failures if f["sig"] == sig), None)
@@ -776,15 +1341,16 @@ def shrink(ctx, failure):
     case = failure["case"]
     if "seq" not in case:
         return failure
-    seq = [tuple(_tuplify(m)) for m in case["seq"]]
+    real = Real()
+    seq = list(_seq_of(case))
     seq = seq[: case.get("step", len(seq) - 1) + 1]
-    best = _fails_with(ctx, tuple(seq), failure["sig"]) or failure
+    best = _fails_with(ctx, real, tuple(seq), failure["sig"]) or failure
     changed = True
     while changed and len(seq) > 1:
         changed = False
         for i in range(len(seq) - 1, -1, -1):
             cand = seq[:i] + seq[i + 1:]
-            f = _fails_with(ctx, tuple(cand), failure["sig"]) if cand else None
+            f = _fails_with(ctx, real, tuple(cand), failure["sig"]) if cand else None
             if f is not None:
                 seq, best, changed = cand, f, True
                 break
